@@ -41,20 +41,16 @@ theorem C20_skeleton_tie : skeleton =
     [("Application", "cancel", ["assign:CANCELLED", "call:clean_up"]),
      ("Application", "clean_up", []),
      ("Application", "evaluate", []),
-     ("Application", "get_app_state", ["if{", "if{", "call:is_finished", "assign:FINISHED", "}", "}"]),
+     ("Application", "get_app_state", ["if{", "call:is_finished", "assign:FINISHED", "}"]),
      ("Application", "is_finished", []),
-     ("Application", "join", ["while{", "call:get_app_state", "if{", "call:cancel", "raise:TimeoutError", "}", "}",
-        "try{", "call:evaluate", "}", "handler:AppStateError{", "raise", "}", "handler:*{", "assign:CANCELLED",
-        "call:clean_up", "raise", "}", "else{", "assign:JOINED", "}", "call:clean_up"]),
+     ("Application", "join", ["while{", "call:get_app_state", "if{", "call:cancel", "raise:TimeoutError", "}", "}", "try{", "call:evaluate", "}", "handler:AppStateError{", "raise", "}", "handler:*{", "assign:CANCELLED", "call:clean_up", "raise", "}", "assign:JOINED", "call:clean_up"]),
      ("Application", "run", []),
-     ("Application", "start", ["try{", "call:run", "}", "handler:*{", "assign:CANCELLED", "try{", "call:clean_up",
-        "}", "handler:Exception{", "}", "raise", "}", "assign:RUNNING"]),
+     ("Application", "start", ["try{", "call:run", "}", "handler:*{", "assign:CANCELLED", "try{", "call:clean_up", "}", "handler:Exception{", "}", "raise", "}", "assign:RUNNING"]),
      ("BlastWebApp", "clean_up", []),
      ("BlastWebApp", "evaluate", []),
      ("BlastWebApp", "is_finished", ["if{", "raise:ValueError", "}"]),
      ("BlastWebApp", "run", ["if{", "raise:ValueError", "}"]),
-     ("ClustalOmegaApp", "clean_up", ["super:clean_up", "call:cleanup_tempfile", "call:cleanup_tempfile",
-        "call:cleanup_tempfile", "call:cleanup_tempfile"]),
+     ("ClustalOmegaApp", "clean_up", ["super:clean_up", "call:cleanup_tempfile", "call:cleanup_tempfile", "call:cleanup_tempfile", "call:cleanup_tempfile"]),
      ("ClustalOmegaApp", "evaluate", ["super:evaluate"]),
      ("ClustalOmegaApp", "run", ["super:run"]),
      ("DsspApp", "clean_up", ["super:clean_up", "call:cleanup_tempfile", "call:cleanup_tempfile"]),
@@ -63,13 +59,9 @@ theorem C20_skeleton_tie : skeleton =
      ("LocalApp", "clean_up", ["if{", "call:get_app_state", "proc:kill", "}"]),
      ("LocalApp", "evaluate", ["super:evaluate", "if{", "raise:SubprocessError", "}"]),
      ("LocalApp", "is_finished", ["else{", "proc:communicate", "}"]),
-     ("LocalApp", "join", ["try{", "proc:communicate", "}", "handler:TimeoutExpired{", "call:cancel",
-        "raise:TimeoutError", "}", "assign:FINISHED", "try{", "call:evaluate", "}", "handler:AppStateError{",
-        "raise", "}", "handler:*{", "assign:CANCELLED", "call:clean_up", "raise", "}", "else{", "assign:JOINED", "}",
-        "call:clean_up"]),
+     ("LocalApp", "join", ["try{", "proc:communicate", "}", "handler:TimeoutExpired{", "call:cancel", "raise:TimeoutError", "}", "assign:FINISHED", "try{", "call:evaluate", "}", "handler:AppStateError{", "raise", "}", "handler:*{", "assign:CANCELLED", "call:clean_up", "raise", "}", "assign:JOINED", "call:clean_up"]),
      ("LocalApp", "run", ["call:chdir", "try{", "call:Popen", "}", "finally{", "call:chdir", "}"]),
-     ("MSAApp", "clean_up", ["super:clean_up", "call:cleanup_tempfile", "call:cleanup_tempfile",
-        "call:cleanup_tempfile"]),
+     ("MSAApp", "clean_up", ["super:clean_up", "call:cleanup_tempfile", "call:cleanup_tempfile", "call:cleanup_tempfile"]),
      ("MSAApp", "evaluate", ["super:evaluate"]),
      ("MSAApp", "run", ["super:run"]),
      ("MafftApp", "clean_up", ["super:clean_up", "try{", "call:remove", "}", "handler:FileNotFoundError{", "}"]),
@@ -92,17 +84,13 @@ theorem C20_skeleton_tie : skeleton =
      ("TantanApp", "clean_up", ["super:clean_up", "call:cleanup_tempfile", "if{", "call:cleanup_tempfile", "}"]),
      ("TantanApp", "evaluate", ["super:evaluate"]),
      ("TantanApp", "run", ["super:run"]),
-     ("VinaApp", "clean_up", ["super:clean_up", "call:cleanup_tempfile", "call:cleanup_tempfile",
-        "call:cleanup_tempfile", "call:cleanup_tempfile"]),
+     ("VinaApp", "clean_up", ["super:clean_up", "call:cleanup_tempfile", "call:cleanup_tempfile", "call:cleanup_tempfile", "call:cleanup_tempfile"]),
      ("VinaApp", "evaluate", ["super:evaluate"]),
      ("VinaApp", "run", ["super:run"]),
      ("_DumpApp", "clean_up", ["if{", "call:get_app_state", "proc:kill", "}"]),
      ("_DumpApp", "evaluate", ["super:evaluate", "if{", "raise:SubprocessError", "}"]),
      ("_DumpApp", "is_finished", ["else{", "proc:communicate", "}"]),
-     ("_DumpApp", "join", ["try{", "proc:communicate", "}", "handler:TimeoutExpired{", "call:cancel",
-        "raise:TimeoutError", "}", "assign:FINISHED", "try{", "call:evaluate", "}", "handler:AppStateError{",
-        "raise", "}", "handler:*{", "assign:CANCELLED", "call:clean_up", "raise", "}", "else{", "assign:JOINED", "}",
-        "call:clean_up"]),
+     ("_DumpApp", "join", ["try{", "proc:communicate", "}", "handler:TimeoutExpired{", "call:cancel", "raise:TimeoutError", "}", "assign:FINISHED", "try{", "call:evaluate", "}", "handler:AppStateError{", "raise", "}", "handler:*{", "assign:CANCELLED", "call:clean_up", "raise", "}", "assign:JOINED", "call:clean_up"]),
      ("_DumpApp", "run", ["call:Popen"])] := by decide
 
 /-- Number of `cleanup_tempfile(...)` calls in a class's own `clean_up`. -/
@@ -190,60 +178,61 @@ theorem C20_gen_facts : BiotiteModel.Gen.C20.facts =
      ("TimeoutError.bases", "Exception"),
      ("VersionError.bases", "Exception"),
      ("Application.join.defaults", "timeout=None"),
-     ("Application.join.loop-test", "self.get_app_state() != AppState.FINISHED"),
-     ("Application.join.timeout-test", "timeout is not None and time.time() - self._start_time > timeout"),
-     ("Application.get_app_state.tests", "self._state == AppState.RUNNING / self.is_finished()"),
+     ("Application.join.cancels-when", "p0 is not None & self.get_app_state() != AppState.FINISHED & time.time() - self.START_TIME > p0"),
+     ("Application.join.then-raises", "TimeoutError"),
+     ("Application.get_app_state.finished-when", "self.STATE == AppState.RUNNING & self.is_finished()"),
+     ("requires_state.refuses-when", "not v0.STATE & app_state"),
      ("LocalApp.__init__.exec_dir", "getcwd()"),
      ("LocalApp.run.restores", "the directory read at entry"),
-     ("LocalApp.run.chdir-to", "self._exec_dir"),
-     ("LocalApp.run.command", "[self._bin_path] + self._options + self._arguments"),
+     ("LocalApp.run.chdir-to", "self.EXEC_DIR"),
+     ("LocalApp.run.command", "[self.BIN_PATH] + self.OPTIONS + self.ARGUMENTS"),
      ("LocalApp.join.defaults", "timeout=None"),
-     ("LocalApp.join.process-calls", "self._process.communicate(timeout=timeout)"),
+     ("LocalApp.join.process-calls", "self.PROCESS.communicate(timeout=p0)"),
      ("LocalApp.evaluate.fail-op", "NotEq"),
      ("LocalApp.evaluate.fail-const", "0"),
      ("LocalApp.evaluate.raises", "SubprocessError"),
-     ("LocalApp.clean_up.test", "self.get_app_state() == AppState.CANCELLED and self._process is not None"),
-     ("LocalApp.clean_up.action", "self._process.kill()"),
-     ("LocalApp.is_finished.calls", "self._process.poll() / self._process.communicate()"),
+     ("LocalApp.clean_up.when", "self.PROCESS is not None & self.get_app_state() == AppState.CANCELLED"),
+     ("LocalApp.clean_up.action", "self.PROCESS.kill()"),
+     ("LocalApp.is_finished.calls", "self.PROCESS.poll() / self.PROCESS.communicate()"),
      ("get_version.defaults", "version_option='--version'"),
      ("cleanup_tempfile.tolerates", "FileNotFoundError"),
      ("localapp.imports-from-application", "AppState,AppStateError,Application,requires_state"),
      ("MSAApp.__init__.defaults", "matrix=None"),
-     ("MSAApp.__init__.first-check", "len(sequences) Lt 2"),
+     ("MSAApp.__init__.first-check", "len(p0) Lt 2"),
      ("MSAApp.__init__.raises-in-order", "ValueError,ValueError,ValueError,TypeError,TypeError,TypeError,TypeError"),
      ("MSAApp.__init__.tempfile-suffixes", "'.fa','.fa','.mat'"),
-     ("MSAApp.evaluate.row-loop", "for i in range(len(self._sequences))"),
-     ("MSAApp.evaluate.row-lookup", "out_seq_str[i] = seq_dict[str(i)]"),
-     ("MSAApp.evaluate.length-check-in-loop", "len(out_seq_str[i].replace('-', '')) != len(self._sequences[i])"),
+     ("MSAApp.evaluate.row-loop", "for v3 in range(len(self.SEQUENCES))"),
+     ("MSAApp.evaluate.row-lookup", "v2[v3] = v1[str(v3)]"),
+     ("MSAApp.evaluate.length-check-in-loop", "symbols of the row NotEq len(input)"),
      ("MSAApp.evaluate.length-check-raises", "ValueError"),
-     ("MSAApp.evaluate.order-loop", "for (i, seq_index) in enumerate(seq_dict): self._order[i] = int(seq_index)"),
-     ("MSAApp.evaluate.rows-size", "[None] * len(seq_dict)"),
-     ("MSAApp.run.names", "sequences_file[str(i)] = str(seq)"),
+     ("MSAApp.evaluate.order", "order[j] = int(key j) over v1"),
+     ("MSAApp.evaluate.rows-size", "[None] * len(v1)"),
+     ("MSAApp.run.names", "v1[str(v2)] = str(v3)"),
      ("MSAApp.align.defaults", "bin_path=None,matrix=None"),
-     ("MSAApp.align.steps", "app.start / app.join / return app.get_alignment"),
-     ("MSAApp.get_matrix_file_path", "self._matrix_file.name if self._matrix is not None else None"),
+     ("MSAApp.align.steps", "start / join / get_alignment"),
+     ("MSAApp.get_matrix_file_path", "None unless a matrix was given"),
      ("ClustalOmegaApp.__init__.defaults", "bin_path='clustalo',matrix=None"),
      ("ClustalOmegaApp.run.options", "--distmat-in,--distmat-out,--force,--full,--guidetree-in,--guidetree-out,--in,--out,--output-order=tree-order,--seqtype"),
      ("ClustalOmegaApp.evaluate.tests", "not self._mbed / self._tree is None"),
      ("ClustalOmegaApp.evaluate.distmat", "np.loadtxt skiprows=1"),
-     ("ClustalOmegaApp.evaluate.distmat-columns", "self._dist_matrix[:, 1:]"),
+     ("ClustalOmegaApp.evaluate.distmat-columns", "(:, 1:)"),
      ("ClustalOmegaApp.get_distance_matrix.test", "self._mbed"),
      ("ClustalOmegaApp.run.tests", "self.get_seqtype() == 'protein' / self._tree is None / not self._mbed / self._dist_matrix is not None / self._tree is not None"),
-     ("ClustalOmegaApp.super-matrix", "super().__init__(sequences, bin_path, None)"),
+     ("ClustalOmegaApp.super-matrix", "None"),
      ("MuscleApp.__init__.defaults", "bin_path='muscle',matrix=None"),
      ("MuscleApp.run.options", "-center,-gapextend,-gapopen,-hydrofactor,-in,-matrix,-out,-quiet,-seqtype,-tree1,-tree2"),
-     ("MuscleApp.version-probe", "get_version(bin_path, '-version')[0]"),
+     ("MuscleApp.version-probe", "get_version(p1, '-version')"),
      ("MuscleApp.version-test", "NotEq 3"),
      ("MuscleApp.version-raises", "VersionError"),
      ("MuscleApp.version-before-super", "True"),
-     ("MuscleApp.set_gap_penalty.branches", "[isinstance(gap_penalty, numbers.Real)] check,store,store | gap_penalty > 0 || [isinstance(gap_penalty, Sequence)] check,store,store | gap_penalty[0] > 0 or gap_penalty[1] > 0"),
+     ("MuscleApp.set_gap_penalty.branches", "[isinstance(p0, numbers.Real)] check,store,store | p0 > 0 || [isinstance(p0, Sequence)] check,store,store | p0[0] > 0 or p0[1] > 0"),
      ("MuscleApp.get_guide_tree.defaults", "iteration='identity'"),
-     ("MuscleApp.get_guide_tree.tests", "iteration == 'kmer'->return self._tree1 / iteration == 'identity'->return self._tree2"),
-     ("MuscleApp.run.gap-format", "{self._gap_ext:.1f},{self._gap_open:.1f}"),
+     ("MuscleApp.get_guide_tree.tests", "p0 == 'kmer'->return self._tree1 / p0 == 'identity'->return self._tree2"),
+     ("MuscleApp.run.gap-format", ".1f"),
      ("MuscleApp.align.defaults", "bin_path=None,matrix=None,gap_penalty=None"),
      ("Muscle5App.__init__.defaults", "bin_path='muscle'"),
      ("Muscle5App.run.options", "-,-amino,-consiters,-nt,-output,-refineiters,-threads"),
-     ("Muscle5App.version-probe", "get_version(bin_path, '-version')[0]"),
+     ("Muscle5App.version-probe", "get_version(p1, '-version')"),
      ("Muscle5App.version-test", "Lt 5"),
      ("Muscle5App.version-raises", "VersionError"),
      ("Muscle5App.version-before-super", "True"),
@@ -252,7 +241,7 @@ theorem C20_gen_facts : BiotiteModel.Gen.C20.facts =
      ("MafftApp.run.options", "--aamatrix,--amino,--auto,--nuc,--quiet,--reorder,--treeout"),
      ("MafftApp.prefix-pattern", "\\d*_"),
      ("MafftApp.tree-file", "self.get_input_file_path() + '.tree'"),
-     ("MafftApp.evaluate.first-step", "with open(self.get_output_file_path(), 'w') as f:"),
+     ("MafftApp.evaluate.writes-stdout-before-super", "True"),
      ("TantanApp.__init__.defaults", "matrix=None,bin_path='tantan'"),
      ("TantanApp.run.options", "-m,-p,-x"),
      ("TantanApp.matrix-file-created", "matrix is None"),
@@ -262,8 +251,8 @@ theorem C20_gen_facts : BiotiteModel.Gen.C20.facts =
      ("BlastWebApp.__init__.defaults", "database='nr',app_url=_ncbi_url,obey_rules=True,mail='padix.key@gmail.com'"),
      ("BlastWebApp.run.order", "requests.get,self._contact,self._request"),
      ("BlastWebApp.is_finished.order", "requests.get,self._contact"),
-     ("map_matrix.none-test", "matrix is None->TypeError"),
-     ("map_matrix.corner", "new_score_matrix[:old_length, :old_length] = matrix.score_matrix()")] := by decide +kernel
+     ("map_matrix.none-test", "p0 is None->TypeError"),
+     ("map_matrix.corner", "v2[:v0, :v0] = p0.score_matrix()")] := by decide +kernel
 
 /-- Value of a regenerated fact. -/
 def fact (k : String) : String := ((BiotiteModel.Gen.C20.facts.find? (·.1 = k)).map (·.2)).getD ""
